@@ -202,9 +202,10 @@ theorem step_grows (k k' : List K) (s s' : State)
       | neg c => simp only [step, Option.some.injEq, Prod.mk.injEq] at h; rw [← h.2]; exact Grows.refl _
       | redir rs c =>
         simp only [step] at h
-        split at h <;> (simp only [Option.some.injEq, Prod.mk.injEq] at h; rw [← h.2])
-        · exact performIn_grows _ _ _
-        · exact ((performIn_grows rs [] s).trans (undoIn_grows _ _)).trans (grows_of_eq rfl rfl rfl)
+        split at h
+        · simp only [Option.some.injEq, Prod.mk.injEq] at h; rw [← h.2]; exact performIn_grows _ _ _
+        · split at h <;> (simp only [Option.some.injEq, Prod.mk.injEq] at h; rw [← h.2]) <;>
+            exact ((performIn_grows rs [] s).trans (undoIn_grows _ _)).trans (grows_of_eq rfl rfl rfl)
     | undo saved =>
       simp only [step, Option.some.injEq, Prod.mk.injEq] at h; rw [← h.2]; exact undoIn_grows _ _
     | branch t e he =>
@@ -274,7 +275,12 @@ theorem step_app_gen (k : List K) (s : State) (S : List Byte)
         by_cases hf : (performIn rs [] s).2.2 = true
         · simp only [hf, if_true]; rfl
         · simp only [hf]
-          rw [undoIn_comm (fun s => s.app S) (app_comm_setDesc S)]; rfl
+          rw [undoIn_comm (fun s => s.app S) (app_comm_setDesc S)]
+          have hx : redirErrorExits (s.app S) c = redirErrorExits s c := rfl
+          rw [hx]
+          by_cases hx2 : redirErrorExits s c = true
+          · simp only [hx2, if_true]; rfl
+          · simp only [hx2]; rfl
     | undo saved =>
       simp only [step]
       rw [undoIn_comm (fun s => s.app S) (app_comm_setDesc S)]; rfl
